@@ -2,9 +2,22 @@
 import json, jsonschema, glob, sys
 jsonschema.validate(json.load(open('/verif/MANIFEST.json')), json.load(open('/root/.vp/MANIFEST.schema.json')))
 es = json.load(open('/root/.vp/EVIDENCE.schema.json'))
+man = json.load(open('/verif/MANIFEST.json'))
+claimed = {c['property_id'] for c in man['checks']}
 for f in sorted(glob.glob('/verif/evidence/*.json')):
     try:
-        jsonschema.validate(json.load(open(f)), es)
+        ev = json.load(open(f))
+        jsonschema.validate(ev, es)
     except Exception as e:
         print("INVALID", f, str(e)[:300]); sys.exit(1)
+    c = ev.get('coverage', {})
+    # a proof-level record: everything generated was discharged, and it comes from a full run
+    if c.get('obligations') != c.get('discharged') or not c.get('obligations'):
+        print("INVALID", f, "coverage.discharged != coverage.obligations (stale or partial run?)", c.get('discharged'), c.get('obligations')); sys.exit(1)
+    if ev.get('property_id') not in claimed:
+        print("INVALID", f, "evidence for a property that is not claimed"); sys.exit(1)
+for pid in sorted(claimed):
+    import os
+    if not os.path.exists(f'/verif/evidence/{pid}.json'):
+        print("MISSING evidence for", pid); sys.exit(1)
 print("manifest and", len(glob.glob('/verif/evidence/*.json')), "evidence files valid")
